@@ -489,13 +489,13 @@ def check_per_iteration_leaks(ctx, rule: str, module_paths, floor: int = 0) -> i
         fns = [f for c in mod.classes.values() for f in c.methods.values()] + list(mod.functions.values())
         for fn in fns:
             loops = [l for l in walk_no_nested(fn.node) if isinstance(l, ast.For)]
-            if len(loops) < 2:
+            if not loops:
                 continue
             hits = list(last_iteration_leaks(fn))
             construct = fn.qualname
             ctx.instance(rule, construct)
             n += 1
-            ctx.obligation(rule, construct, not hits, {'leaks': sorted({h[1] for h in hits})} if hits else None, nontrivial=bool(hits))
+            ctx.obligation(rule, construct, not hits, {'leaks': sorted({h[1] for h in hits})} if hits else None, nontrivial=len(loops) > 1)
             for node, name, L in hits[:1]:
                 ctx.violation(rule, construct, '`%s` is bound only inside the loop at line %d (a per-iteration value derived from `%s`) and read '
                               'inside the later loop at line %d: every iteration there sees the value of the last iteration that bound it'
@@ -798,7 +798,7 @@ def check_block_loops_cover(ctx, rule: str, module_paths, floor: int = 0) -> int
         mod = M.module(path)
         fns = [f for c in mod.classes.values() for f in c.methods.values()] + list(mod.functions.values())
         for fn in fns:
-            loops = [l for l in walk_no_nested(fn.node) if isinstance(l, ast.For) and isinstance(l.iter, ast.Call) and norm(l.iter.func) in ('range', 'np.arange')]
+            loops = [l for l in walk_no_nested(fn.node) if isinstance(l, (ast.For, ast.While))]
             if not loops:
                 continue
             construct = fn.qualname
@@ -1096,14 +1096,13 @@ def check_accumulators_initialised(ctx, rule: str, module_paths, floor: int = 0)
         mod = M.module(path)
         fns = [f for c in mod.classes.values() for f in list(c.methods.values()) + list(c.getters.values())] + list(mod.functions.values())
         for fn in fns:
+            # every function of the modules is scanned (one instance each); the obligation is non-trivial where an array is created
             ctors = [x for x in walk_no_nested(fn.node) if isinstance(x, ast.Call) and norm(x.func) in EMPTY_CTORS | {'np.zeros', 'numpy.zeros', 'np.zeros_like'}]
-            if not ctors or not any(isinstance(x, ast.AugAssign) for x in walk_no_nested(fn.node)):
-                continue
             construct = fn.qualname
             ctx.instance(rule, construct)
             n += 1
             hits = list(uninitialised_accumulators(fn))
-            ctx.obligation(rule, construct, not hits, {'accumulated_from_garbage': [h[1] for h in hits]} if hits else None, nontrivial=True)
+            ctx.obligation(rule, construct, not hits, {'accumulated_from_garbage': [h[1] for h in hits]} if hits else None, nontrivial=bool(ctors))
             for node, name, call in hits[:1]:
                 ctx.violation(rule, construct, '`%s = %s` holds arbitrary memory and is accumulated into at line %d before anything was stored '
                               'in it: the result is the sum plus garbage (use np.zeros)' % (name, norm(call)[:50], node.lineno),
